@@ -150,7 +150,7 @@ pub fn gen_peg(rng: &mut Rng, depth: usize) -> G {
         return gen_leaf(rng);
     }
     let d = depth - 1;
-    let mut b = |rng: &mut Rng| Box::new(gen_peg(rng, d));
+    let b = |rng: &mut Rng| Box::new(gen_peg(rng, d));
     match rng.below(19) {
         0 => G::Left(b(rng), b(rng)),
         1 => G::Right(b(rng), b(rng)),
@@ -442,7 +442,7 @@ pub fn family(out: &mut Out, family: &str, tier: &Tier, rng: &mut Rng) {
     }
     for i in 0..n {
         let c = match family {
-            "peg" => { let g = gen_peg(rng, 1 + rng.below(3)); mk(token_text(rng, 7, &[]), rng, g) }
+            "peg" => { let d = 1 + rng.below(3); let g = gen_peg(rng, d); mk(token_text(rng, 7, &[]), rng, g) }
             "rep" => { let g = gen_rep(rng); mk(token_text(rng, 9, &[]), rng, g) }
             "capture" => {
                 let inner = if rng.chance(1, 2) { gen_peg(rng, 2) } else { gen_rep(rng) };
@@ -474,11 +474,11 @@ pub fn family(out: &mut Out, family: &str, tier: &Tier, rng: &mut Rng) {
                 c.invocations = 1 + rng.below(4);
                 c
             }
-            "twice" => { let g = gen_committed(rng, rng.below(3)); let mut c = mk(token_text(rng, 9, &[',', ';', '[', ']', '(', ')']), rng, g); c.sink = i % 2 == 0; c }
+            "twice" => { let d = rng.below(3); let g = gen_committed(rng, d); let mut c = mk(token_text(rng, 9, &[',', ';', '[', ']', '(', ')']), rng, g); c.sink = i % 2 == 0; c }
             "scoped" => { let g = gen_scoped(rng); let mut c = mk(token_text(rng, 8, &[';', ',']), rng, g); c.sink = rng.chance(3, 4); c.nctx = rng.below(4); c }
             "ctxops" => {
                 let mut t = 0;
-                let g = gen_ctx(rng, 1 + rng.below(4), &mut t);
+                let d = 1 + rng.below(4); let g = gen_ctx(rng, d, &mut t);
                 let mut c = mk(String::from("a"), rng, g);
                 c.sink = rng.chance(3, 4);
                 c.nctx = rng.below(4);
